@@ -181,7 +181,7 @@ def gen(R, tier):
         return gen_atomistic(R, tier)
     if k == 'coarse':
         return gen_coarse(R, tier)
-    if R.chance(0.12):
+    if R.chance(0.25):
         # cyclic (co)polymers: runs of identical residues, ring bonds of any order anywhere in the base graph
         import networkx as nx
         n = R.randint(3, 9)
@@ -194,7 +194,7 @@ def gen(R, tier):
             a, b = R.sample(range(n), 2)
             if not g.has_edge(a, b):
                 g.add_edge(a, b, order=R.choice([1, 2, 2, 3, 0]))
-        pool = R.choice([['A'], ['A', 'A', 'B'], ['PEO', 'PPO']])
+        pool = R.choice([['A'], ['A'], ['A', 'A', 'B'], ['PEO', 'PPO']])
         names = {i: R.choice(pool) for i in range(n)}
         text = molgen.write_base(R, g, names)
         frs = ','.join('#%s=[$]CC[$][$][$]' % nm for nm in sorted(set(names.values())))
